@@ -1891,7 +1891,7 @@ impl Gen<'_> {
         let w: [u64; 11] = match self.opts.bias {
             // decl assign idx arrm shout if loop block fn call idiom
             Bias::Arrays => [14, 6, 16, 18, 12, 7, 7, 1, 6, 9, 6],
-            Bias::Scoping => [18, 12, 3, 4, 12, 7, 6, 6, 18, 16, 3],
+            Bias::Scoping => [18, 12, 3, 4, 12, 7, 6, 6, 18, 16, 7],
             Bias::Strings => [20, 16, 4, 5, 18, 7, 7, 1, 7, 10, 6],
             Bias::Control => [12, 12, 4, 5, 12, 18, 16, 3, 6, 9, 3],
             Bias::Numbers => [18, 16, 4, 4, 16, 9, 8, 1, 8, 12, 3],
@@ -2973,6 +2973,15 @@ impl Gen<'_> {
 
 impl Gen<'_> {
     fn idiom(&mut self) -> bool {
+        // the two scoping shapes: always under the scoping bias half of the time, else now and then
+        let scoping = match self.opts.bias {
+            Bias::Scoping => self.ch(3, 5),
+            Bias::Arrays => self.ch(1, 4),
+            _ => self.ch(1, 6),
+        };
+        if scoping {
+            return if self.ch(1, 2) { self.shadowed_capture() } else { self.fn_shadow() };
+        }
         match self.below(7) {
             0 | 1 => self.copy_write_read(),
             2 => self.drain_loop(),
@@ -2981,6 +2990,175 @@ impl Gen<'_> {
             5 if !self.strict => self.alias_shapes(),
             _ => self.string_table(),
         }
+    }
+
+    /// C04 x C05: functions read and mutate a CAPTURED array through index chains (`x[i].push/pop/
+    /// reverse`, `x[i][j] get v`, reads) while a function on the call chain holds an unrelated local or
+    /// parameter of THE SAME NAME and mutates it the same way. A block of its own with hand-written
+    /// names: nothing escapes it, the generator tracks none of it.
+    fn shadowed_capture(&mut self) -> bool {
+        if !self.can_out(8) || self.cx.depth >= 4 {
+            return false;
+        }
+        let x = self.pick(&ARR_NAMES).to_string();
+        let by_param = self.ch(1, 3);
+        let via_mid = self.ch(1, 2);
+        let (i, j) = (self.below(2), self.below(2));
+        let v1 = self.below(90) + 1;
+        let s1 = self.pick(&["p", "qq", "ü"]);
+        self.open("start");
+        self.push_scope();
+        self.line(&format!("make {x} get [[1, 2], [\"a\", \"b\", 3]]"));
+        self.line(&format!("do grow(v) start {x}[{i}].push(v) end"));
+        self.line(&format!("do take() start return {x}[{}].pop() end", 1 - i));
+        self.line(&format!("do flip() start {x}[{i}].reverse() end"));
+        self.line(&format!("do put(v) start {x}[{i}][{j}] get v end"));
+        self.line(&format!("do peek() start return {x}[{j}][0] end"));
+        self.line(&format!("do whole() start return {x} end"));
+        let steps = ["grow(@)", "shout(take())", "flip()", "put(@)", "shout(peek())", "shout(whole())"];
+        let mine = [
+            format!("{x}[{j}].push(@)"),
+            format!("shout({x}[{}].pop())", 1 - j),
+            format!("{x}[{j}].reverse()"),
+            format!("{x}[{j}][0] get @"),
+            format!("{x}.push([@])"),
+        ];
+        let mut outs = 0;
+        let seq = |g: &mut Self, n: usize, outs: &mut usize, popped: &mut bool, took: &mut bool| {
+            for _ in 0..n {
+                let val = if g.ch(1, 2) { format!("{}", g.below(90)) } else { format!("\"{}\"", g.pick(&["p", "qq", "ü"])) };
+                let t = if g.ch(3, 5) {
+                    let k = g.below(steps.len());
+                    if k == 1 {
+                        if *took {
+                            continue;
+                        }
+                        *took = true;
+                    }
+                    steps[k].to_string()
+                } else {
+                    let k = g.below(mine.len());
+                    if k == 1 {
+                        if *popped {
+                            continue;
+                        }
+                        *popped = true;
+                    }
+                    mine[k].clone()
+                };
+                if t.starts_with("shout(") {
+                    if *outs >= 5 {
+                        continue;
+                    }
+                    *outs += 1;
+                }
+                g.line(&t.replace('@', &val));
+            }
+        };
+        let mut took = false;
+        if via_mid {
+            self.open("do mid() start");
+            self.line(&format!("make {x} get [[{v1}], [\"{s1}\", 0, 1]]"));
+            let mut popped = false;
+            let n = 2 + self.below(3);
+            seq(self, n, &mut outs, &mut popped, &mut took);
+            self.line(&format!("return {x}"));
+            self.close();
+        }
+        if by_param {
+            self.open(&format!("do caller({x}) start"));
+        } else {
+            self.open("do caller() start");
+            self.line(&format!("make {x} get [[\"l\", \"m\"], [7, 8, 9]]"));
+        }
+        let mut popped = false;
+        let n = 2 + self.below(4);
+        seq(self, n, &mut outs, &mut popped, &mut took);
+        if via_mid {
+            self.line("shout(mid())");
+        }
+        let n = 1 + self.below(3);
+        seq(self, n, &mut outs, &mut popped, &mut took);
+        self.line(&format!("shout({x})"));
+        self.close();
+        if by_param {
+            self.line("caller([[\"l\", \"m\"], [7, 8, 9]])");
+        } else {
+            self.line("caller()");
+        }
+        self.line(&format!("shout({x})"));
+        self.env.pop();
+        self.close();
+        self.note_out(outs + 3);
+        self.stmts += 12;
+        let m = self.cx.mult * 40;
+        match self.fx.last_mut() {
+            Some(fx) => fx.work += m,
+            None => self.est_work += m,
+        }
+        true
+    }
+
+    /// C04: a call is bound to the function of the innermost LEXICALLY enclosing block that defines the
+    /// name. `user` calls the outer `h`; its caller defines another `h` in its own body (and in a nested
+    /// block / loop body), live and more recent on the dynamic stack while `user` runs.
+    fn fn_shadow(&mut self) -> bool {
+        if !self.can_out(8) || self.cx.depth >= 4 {
+            return false;
+        }
+        let h = self.pick(&["helper", "calc", "pick", "step"]).to_string();
+        let with_param = self.ch(1, 2);
+        let (p, a) = if with_param { ("q", "4") } else { ("", "") };
+        let (r1, r2, r3) = (self.below(9) + 1, self.below(9) + 11, self.below(9) + 21);
+        let plus = if with_param { " add q" } else { "" };
+        self.open("start");
+        self.push_scope();
+        self.line(&format!("do {h}({p}) start return {r1}{plus} end"));
+        self.line(&format!("do user({p}) start return {h}({p}) end"));
+        if self.ch(1, 2) {
+            self.line(&format!("do relay({p}) start return user({p}) add 100 end"));
+        } else {
+            self.line(&format!("do relay({p}) start return user({p}) end"));
+        }
+        self.open("do host() start");
+        self.line(&format!("do {h}({p}) start return {r2}{plus} end"));
+        self.line(&format!("shout({h}({a}))"));
+        self.line(&format!("shout(user({a}))"));
+        let mut outs = 2;
+        match self.below(3) {
+            0 => {
+                self.open("start");
+                self.line(&format!("do {h}({p}) start return {r3}{plus} end"));
+                self.line(&format!("shout({h}({a}))"));
+                self.line(&format!("shout(relay({a}))"));
+                self.close();
+                outs += 2;
+            }
+            1 => {
+                self.line("make once get true");
+                self.open("jasi (once) start");
+                self.line("once get false");
+                self.line(&format!("do {h}({p}) start return {r3}{plus} end"));
+                self.line(&format!("shout(relay({a}))"));
+                self.close();
+                outs += 1;
+            }
+            _ => {}
+        }
+        self.line(&format!("return relay({a})"));
+        self.close();
+        self.line("shout(host())");
+        self.line(&format!("shout({h}({a}))"));
+        self.env.pop();
+        self.close();
+        self.note_out(outs + 2);
+        self.stmts += 10;
+        let m = self.cx.mult * 30;
+        match self.fx.last_mut() {
+            Some(fx) => fx.work += m,
+            None => self.est_work += m,
+        }
+        true
     }
 
     /// `make b get a  b[0][1] get 9  shout(a) shout(b)`: copies are independent at every depth.
@@ -3819,9 +3997,176 @@ fn product_program(s: &Sink, ty: &str, value: &str, route: &str) -> String {
     format!("shout(\"begin\")\n{core}\nshout(\"done\")\n")
 }
 
+/// Numeric boundary operands: (tag, expression text). The language has no exponent syntax and no
+/// negative literals: big values are written out, negative ones are `(minus x)`, infinities and NaN
+/// are computed (`1e308 times 10`, `inf minus inf`).
+fn boundary_numbers() -> Vec<(String, String)> {
+    let big = format!("1{}", "0".repeat(308));
+    let tiny = format!("0.{}5", "0".repeat(323));
+    let inf = format!("({big} times 10)");
+    let mut v: Vec<(String, String)> = vec![("0".into(), "0".into()), ("-0".into(), "(minus 0)".into())];
+    for (tag, text) in [
+        ("1", "1".to_string()),
+        ("0.5", "0.5".to_string()),
+        ("3", "3".to_string()),
+        ("2p31", "2147483648".to_string()),
+        ("2p53", "9007199254740992".to_string()),
+        ("2p63", "9223372036854775808".to_string()),
+        ("2p64", "18446744073709551616".to_string()),
+        ("1e308", big.clone()),
+        ("inf", inf.clone()),
+        ("denormal", tiny),
+    ] {
+        v.push((tag.to_string(), text.clone()));
+        v.push((format!("-{tag}"), format!("(minus {text})")));
+    }
+    v.push(("nan".into(), format!("({inf} minus {inf})")));
+    v
+}
+
+/// Numeric boundary family of the C06 product: every arithmetic / comparison operator, unary minus,
+/// every number method and every position that casts a number (index, slice bounds, timeout) x the
+/// boundary operands, as literals AND routed through parameters. Outputs are compared bit-exactly
+/// with the model (`-0` vs `0`, `inf`, `NaN`), a crash is an ORACLE-FAIL.
+fn numeric_cases(out: &mut Vec<(String, String)>) {
+    let vals = boundary_numbers();
+    let ops = ["add", "minus", "times", "na", "pass", "small pass", "divide", "mod"];
+    let wrap = |core: &str| format!("shout(\"begin\")\n{core}\nshout(\"done\")\n");
+    for (ta, a) in &vals {
+        for (tb, b) in &vals {
+            let zero_right = tb == "0" || tb == "-0";
+            for route in ["literal", "parameter"] {
+                let (x, y) = if route == "literal" { (a.as_str(), b.as_str()) } else { ("a", "b") };
+                let all: String = ops.iter().map(|op| format!("shout({x} {op} {y})\n")).collect();
+                let variants: Vec<(&str, String)> = if zero_right {
+                    // `divide` by zero ends the run: `mod` gets a program of its own
+                    vec![("ops", all), ("mod", format!("shout({x} mod {y})\n"))]
+                } else {
+                    vec![("ops", all)]
+                };
+                for (kind, body) in variants {
+                    let core = if route == "literal" {
+                        body
+                    } else {
+                        format!("do f(a, b) start\n{body}end\nf({a}, {b})")
+                    };
+                    out.push((format!("sink=num.{kind}.{ta}.{tb};type=number;route={route}"), wrap(core.trim_end())));
+                }
+            }
+        }
+    }
+    for (t, v) in &vals {
+        for route in ["literal", "parameter"] {
+            let unary = "shout(minus p)\nshout(p.abs())\nshout(p.sqrt())\nshout(p.floor())\nshout(p.ceil())\nshout(p.round())\n\
+                         shout(to_string(p))\nshout(\"<{p}>\")\nshout(typeof(p))\nshout([p, p])\nshout(not (p na p))\n";
+            let sinks: [(&str, &str); 6] = [
+                ("unary", unary),
+                ("index", "make arr get [1, 2]\nshout(arr[p])\n"),
+                ("index_assign", "make arr get [1, 2]\narr[p] get 1\nshout(arr)\n"),
+                ("slice.0", "shout(\"abcdef\".slice(p, 2))\n"),
+                ("slice.1", "shout(\"abcdef\".slice(0, p))\n"),
+                ("timeout_ms", "make c get command(\"echo\")\nc.timeout_ms(p)\nshout(c)\n"),
+            ];
+            for (kind, body) in sinks {
+                let core = if route == "literal" {
+                    format!("make p get {v}\n{body}")
+                } else {
+                    format!("do f(p) start\n{body}end\nf({v})")
+                };
+                out.push((format!("sink=num.{kind}.{t};type=number;route={route}"), wrap(core.trim_end())));
+            }
+        }
+    }
+}
+
+/// Self-mutation family of the C06 product: an index / argument / right-operand expression that
+/// MUTATES the array or variable being indexed or used (pop / push / reverse / re-assignment, directly
+/// or through a function), on a local, a parameter, a captured variable and inside a loop body. The
+/// receiver is read before or after its sub-expressions run: whatever the order, the result is a value
+/// or a reported runtime error, and it is the one the model computes.
+fn self_mutation_cases(out: &mut Vec<(String, String)>) {
+    let helpers = "do shrink() start return xs.pop() end\n\
+                   do clear() start\n    xs get []\n    return 0\nend\n\
+                   do grow() start\n    xs.push(9)\n    return 0\nend\n\
+                   do flip() start\n    xs.reverse()\n    return 0\nend\n\
+                   do retype() start\n    xs get \"str\"\n    return 0\nend\n\
+                   do two(a, b) start return [a, b] end\n";
+    // a string / number variable has no array methods: only the re-assigning helpers
+    let scalar_helpers = "do clear() start\n    xs get 7\n    return 0\nend\n\
+                          do retype() start\n    xs get \"zz\"\n    return 0\nend\n";
+    let nums = "[0, 1, 2]";
+    let cases: Vec<(&str, &str, &str)> = vec![
+        // (tag, initial value of xs, statement)
+        ("index.pop", nums, "shout(xs[xs.pop()])"),
+        ("index.pop_minus", nums, "shout(xs[xs.pop() minus 1])"),
+        ("index.pop_pop", nums, "shout(xs[xs.pop() minus xs.pop()])"),
+        ("index.shrink", nums, "shout(xs[shrink()])"),
+        ("index.clear", nums, "shout(xs[clear()])"),
+        ("index.grow", nums, "shout(xs[grow() add 3])"),
+        ("index.flip", nums, "shout(xs[flip()])"),
+        ("index.retype", nums, "shout(xs[retype()])"),
+        ("index.len_pop", nums, "shout(xs[xs.len() minus xs.pop()])"),
+        ("index.nested_inner", "[[0, 1, 2], [5]]", "shout(xs[0][xs[0].pop()])"),
+        ("index.nested_outer", "[[0, 1, 2], [1]]", "shout(xs[xs.pop()[0]][0])"),
+        ("index.nested_shrink", "[[0, 1, 2], [1]]", "shout(xs[1][shrink()[0] minus 1])"),
+        ("index_assign.pop", nums, "xs[xs.pop()] get 7"),
+        ("index_assign.shrink", nums, "xs[shrink()] get 7"),
+        ("index_assign.clear", nums, "xs[clear()] get 7"),
+        ("index_assign.value_pop", nums, "xs[0] get xs.pop()"),
+        ("index_assign.value_shrink", nums, "xs[2] get shrink()"),
+        ("index_assign.value_retype", nums, "xs[0] get retype()"),
+        ("index_assign.nested", "[[0, 1, 2], [5]]", "xs[0][xs[0].pop()] get 7"),
+        ("arg.push_pop", nums, "xs.push(xs.pop())"),
+        ("arg.push_shrink", nums, "xs.push(shrink())"),
+        ("arg.push_clear", nums, "xs.push(clear())"),
+        ("arg.push_retype", nums, "xs.push(retype())"),
+        ("arg.nested_push", "[[0, 1, 2], [5]]", "xs[1].push(xs.pop())"),
+        ("arg.nested_push_index", "[[0, 1, 2], [5]]", "xs[xs.pop()[0] minus 4].push(1)"),
+        ("arg.join", "[\"a\", \"b\", \",\"]", "shout(xs.join(xs.pop()))"),
+        ("arg.join_shrink", "[\"a\", \"b\", \",\"]", "shout(xs.join(shrink()))"),
+        ("arg.user_first", nums, "shout(two(xs, xs.pop()))"),
+        ("arg.user_second", nums, "shout(two(xs.pop(), xs))"),
+        ("arg.user_index_after", nums, "shout(two(shrink(), xs[2]))"),
+        ("arg.user_index_before", nums, "shout(two(xs[2], shrink()))"),
+        ("operand.len_minus_pop", nums, "shout(xs.len() minus xs.pop())"),
+        ("operand.pop_minus_len", nums, "shout(xs.pop() minus xs.len())"),
+        ("operand.elem_add_shrink", nums, "shout(xs[2] add shrink())"),
+        ("operand.shrink_add_elem", nums, "shout(shrink() add xs[1])"),
+        ("operand.len_pass_clear", nums, "shout(xs.len() pass clear())"),
+        ("operand.and", nums, "shout(xs.len() pass 2 and xs[shrink()] na 2)"),
+        ("array_literal", nums, "shout([xs, xs.pop(), xs, xs[shrink()]])"),
+        ("string.slice", "\"abcdef\"", "shout(xs.slice(0, retype() add 2))"),
+        ("string.add", "\"abcdef\"", "shout(xs add to_string(retype()))"),
+        ("string.interp", "\"abcdef\"", "shout(\"{xs}\" add to_string(clear()))"),
+        ("number.add_bump", "5", "shout(xs add retype())"),
+        ("number.mod_bump", "5", "shout(xs mod (clear() add 2))"),
+    ];
+    let indent = |text: &str| text.lines().map(|l| format!("    {l}\n")).collect::<String>();
+    for (tag, init, stmt) in cases {
+        let helpers = if init.starts_with('[') { helpers } else { scalar_helpers };
+        let body = format!("{helpers}{stmt}\nshout(xs)\n");
+        for route in ["local", "parameter", "captured", "loop"] {
+            let core = match route {
+                "local" => format!("make xs get {init}\n{body}"),
+                "parameter" => format!("do t(xs) start\n{}end\nt({init})\n", indent(&body)),
+                "captured" => format!("make xs get {init}\ndo t() start\n{}end\nt()\nshout(xs)\n", indent(&body)),
+                _ => format!(
+                    "make xs get {init}\n{helpers}make once get true\njasi (once) start\n    once get false\n    {stmt}\n    shout(xs)\nend\nshout(xs)\n"
+                ),
+            };
+            out.push((
+                format!("sink=selfmut.{tag};type=array;route={route}"),
+                format!("shout(\"begin\")\n{core}shout(\"done\")\n"),
+            ));
+        }
+    }
+}
+
 /// The complete finite C06 product: (tag, program text). Deterministic, no rng.
 pub fn product_cases() -> Vec<(String, String)> {
     let mut out = Vec::new();
+    numeric_cases(&mut out);
+    self_mutation_cases(&mut out);
     for s in product_sinks() {
         for (ty, value) in PRODUCT_TYPES {
             for route in PRODUCT_ROUTES {
